@@ -32,6 +32,9 @@ structure Prims.Correct (P : Prims) : Prop where
   /-- Diffie–Hellman: both sides derive the same shared secret -/
   dh_comm : ∀ a b pa pb, P.x25519 a P.basepoint = some pa → P.x25519 b P.basepoint = some pb →
     P.x25519 a pb = P.x25519 b pa
+  x25519_len : ∀ a b c, P.x25519 a b = some c → c.length = 32
+  sha256_len : ∀ b, (P.sha256 b).length = 32
+  hmac_len : ∀ k m, (P.hmac k m).length = 32
   /-- RSA: decrypting an encryption under the matching key returns the message -/
   oaep : ∀ pub priv, P.rsaPair pub priv → ∀ seed m l c, P.oaepEnc pub seed m l = some c → P.oaepDec priv c l = some m
 
